@@ -175,6 +175,9 @@ def check(ctx):
                 if lib.is_call(fr, "World::get_entity_mut", "EntityWorldMut::get_mut", "Try::branch") and sp.dominates(r, b):
                     for (sb, ok_t, fail_t) in lib.result_arms(sp, b):
                         post_fail.append(fail_t)
+            # the run's own `None` (the callback was Empty): `run(..).ok_or(())?` or `let Some(r) = run(..) else { return Err(()) }`
+            for (sb, ok_t, fail_t) in lib.result_arms(sp, r):
+                post_fail.append(fail_t)
             rein = []
             # the slot that holds the callback, by type (its private name may change)
             try:
